@@ -79,6 +79,7 @@ impl<'a> Tr<'a> {
             Expr::Assign(a) => self.assign_k(&a.left, None, &a.right, env, e, k),
             Expr::Binary(b) if is_compound(&b.op) => self.assign_k(&b.left, Some(&b.op), &b.right, env, e, k),
             Expr::Macro(m) if is_skipped_macro(&m.mac) => k(self, unit()),
+            Expr::MethodCall(m) if Self::get_mut_chain(m).is_some() => self.get_mut_chain_k(m, env, e, k),
             Expr::Loop(l) => {
                 if l.label.is_some() {
                     return Err(unsupported(e, "labelled loop"));
@@ -284,6 +285,76 @@ impl<'a> Tr<'a> {
             syn::visit::Visit::visit_stmt(&mut v, st);
         }
         v.found
+    }
+
+    /// `slice.get_mut(i).ok_or(err).map(|b| { *b = v; })`: (slice place, index, error, closure)
+    fn get_mut_chain(m: &ExprMethodCall) -> Option<(&Expr, &Expr, &Expr, &ExprClosure)> {
+        if m.method != "map" || m.args.len() != 1 {
+            return None;
+        }
+        let cl = match &m.args[0] {
+            Expr::Closure(c) if c.inputs.len() == 1 => c,
+            _ => return None,
+        };
+        let ok = match &*m.receiver {
+            Expr::MethodCall(o) if o.method == "ok_or" && o.args.len() == 1 => o,
+            _ => return None,
+        };
+        let gm = match &*ok.receiver {
+            Expr::MethodCall(g) if g.method == "get_mut" && g.args.len() == 1 => g,
+            _ => return None,
+        };
+        Some((&gm.receiver, &gm.args[0], &ok.args[0], cl))
+    }
+
+    fn get_mut_chain_k(&mut self, m: &ExprMethodCall, env: &Env, at: &Expr, k: K) -> R<String> {
+        let (sl, idx, err, cl) = Self::get_mut_chain(m).unwrap();
+        let (root, path) = self.target_of(sl)?;
+        let sv = self.pure(sl, env, None)?;
+        let elem = match &sv.ty {
+            Ty::Slice(t) => (**t).clone(),
+            t => return Err(unsupported(at, &format!("get_mut on a value of type {}", t.show()))),
+        };
+        let iv = self.pure(idx, env, Some(&Ty::int(IntTy::Usize)))?;
+        if !iv.ty.is_int() {
+            return Err(unsupported(at, "get_mut with a range"));
+        }
+        let ev = self.pure(err, env, None)?;
+        // the closure must be `|b| { *b = value; }` (or `|b| *b = value`)
+        let pname = match &cl.inputs[0] {
+            Pat::Ident(i) => i.ident.to_string(),
+            _ => return Err(unsupported(at, "closure parameter of the get_mut idiom")),
+        };
+        let assign: &ExprAssign = match &*cl.body {
+            Expr::Assign(a) => a,
+            Expr::Block(b) if b.block.stmts.len() == 1 => match &b.block.stmts[0] {
+                Stmt::Expr(Expr::Assign(a), _) => a,
+                _ => return Err(unsupported(at, "closure body of the get_mut idiom is not a single assignment")),
+            },
+            _ => return Err(unsupported(at, "closure body of the get_mut idiom is not a single assignment")),
+        };
+        if place_root(&assign.left).as_deref() != Some(pname.as_str()) {
+            return Err(unsupported(at, "the get_mut closure assigns to something else than its parameter"));
+        }
+        let b = self.fresh(&pname);
+        let mut env2 = env.clone();
+        env2.push(&pname, var(b.clone(), elem.clone()));
+        let nv = self.pure(&assign.right, &env2, Some(&elem))?;
+        join(&nv.ty, &elem).map_err(|m| unsupported(at, &m))?;
+        let r = self.fresh("res");
+        let rty = Ty::Result(Box::new(Ty::Unit), Box::new(ev.ty.clone()));
+        let rest = k(self, Val { s: r.clone(), ty: rty })?;
+        let tmp = self.fresh("sl");
+        let rest = self.write_place(&root, &path, env, &tmp, &rest, at)?;
+        let m = format!(
+            "(match Casts.slice_get {s} {i} with\n| Some {b} => (Casts.slice_set {s} {i} {v}, inl tt)\n| None => ({s}, inr {e})\nend)",
+            s = sv.s,
+            i = iv.s,
+            b = b,
+            v = nv.s,
+            e = ev.s
+        );
+        Ok(crate::effects::let_pat(&[tmp, r], &m, &rest))
     }
 
     fn body_k(&mut self, b: &Body, env: &Env, hint: Option<&Ty>, k: K) -> R<String> {
